@@ -5,6 +5,7 @@ import Rare.Model.C01Trim
 import Rare.Model.PipelineTrace
 import Rare.Model.C01Summary
 import Rare.Model.C01Flags
+import Rare.Model.C01Chunk
 import Rare.Drv.Expr
 namespace Rare.Drv.C01
 open Rare Rare.C01 Rare.Proto Rare.Pipeline
@@ -238,6 +239,60 @@ def filterOp : List String → String
     | _, _, _, _ => "bad-args"
   | _ => "bad-args"
 
+/-! ### `pipex`: sources that are not all well-behaved files; the exit state; the summary with errors -/
+
+def parseStepX (s : String) : Option C04.Step :=
+  match s.splitOn ":" with
+  | n :: e :: _ => do
+    let n ← n.toNat?
+    let e ← (if e = "n" then some none else if e = "e" then some (some C04.RErr.eof) else if e = "f" then some (some C04.RErr.fail) else none)
+    pure ⟨n, e⟩
+  | _ => none
+
+def parseScriptX (s : String) : Option (List C04.Step) :=
+  if s = "." then some [] else (s.splitOn ",").mapM parseStepX
+
+def parseSrcX (s : String) : Option SrcIn :=
+  match s.splitOn "/" with
+  | [k, d, sc] => do
+    let d ← Hex.dec d
+    let sc ← parseScriptX sc
+    if k = "d" then pure ⟨true, d, []⟩
+    else if k = "p" ∨ k = "r" then pure ⟨true, d, sc⟩
+    else if k = "m" then pure ⟨false, [], []⟩
+    else if k = "D" then pure ⟨true, [], [⟨0, some .fail⟩]⟩
+    else none
+  | _ => none
+
+def parseSrcsX (s : String) : Option (List SrcIn) :=
+  if s = "." then some [] else (s.splitOn ";").mapM parseSrcX
+
+/-- `pipex <mode> <batch> <workers> <readers> <buffer> <flushms> <sources> <matcher> <ignores> <extract>`: the sequential
+    evaluation of the lines the scanner model hands over (`scannedLines`), the error count, `DetermineErrorState`
+    and the summary line with the errors part. -/
+def pipexOp : List String → String
+  | [mode, _, _, _, _, _, srcs, m, ig, ex] =>
+    match parseSrcsX srcs, parseClsSpec m ig ex with
+    | some srcs, some spec =>
+      match buildExtractor spec (mode != "reader") with
+      | .compileError => "compile-error"
+      | .fail msg => failAns msg
+      | .ok e =>
+        let ls := (srcs.zipIdx 0).flatMap fun p => scannedLines p.2 p.1
+        match firstPanic e ls with
+        | some msg => failAns msg
+        | none =>
+          let t := seqTotals (clsOf e) ls
+          let ms := seqMatches (clsOf e) ls
+          let errs := readErrors srcs
+          let (code, msg) : Int × String := match determineErrorState errs none t.matched with
+            | none => (0, "")
+            | some (msg, c) => (c, msg)
+          let body := if ms.isEmpty then "." else ",".intercalate (ms.map (renderKeyed e))
+          s!"ok read={t.read} matched={t.matched} ignored={t.ignored} errors={errs} exit={code} msg={Hex.enc (ascii msg)} summary={Hex.enc (extractorSummary true false t.matched t.read t.ignored errs [])} matches={body}"
+    | _, _ => "bad-args"
+  | _ => "bad-args"
+
 /-- `pipe <inputs hexlist> <mode> <batch> <workers> <readers> <buffer> <flushms> <script> <procs> <delay>
     [<matcher> <ignores> <extract>]`: the reference outcome – sequential evaluation in which every line is
     classified with its own source name and 1-based line number (independent of batch/worker/reader/buffer
@@ -265,6 +320,7 @@ def handle : List String → String
     | _, _ => "bad-args"
   | "flags" :: rest => flagsOp rest
   | "filtern" :: rest => filterOp rest
+  | "pipex" :: rest => pipexOp rest
   | ["trim", h] =>
     -- `strings.TrimSpace` byte for byte, `Truthy` as Go computes it, and the `truthy` of the shared expression model
     match Hex.dec h with
